@@ -32,6 +32,9 @@ CLAIMS = {
  "C14": ("Theorems for all texts: parse_total / parse_consumes / parse_never_panics; parse_error_cannot_start, parse_error_unclosed, parse_error_dangling, parse_error_signed_exponent (the specific ParseError); parse_cst_partial / parse_render_partial — the fully general scannerless round trip: for every AST of the documented grammar, every layout with arbitrary (Unicode) white space and redundant parentheses and every remainder that cannot continue the expression, parse returns exactly that tree and that remainder, hence the conventional value under every interpretation of the float operations; literal_bits_agree. The regex patterns are regenerated from the source on every run (patterns_as_modelled). Correspondence: grammar-generated and malformed strings, AST/remainder exact, value bits exact (2 ulp for libm functions).",
          "PARTIAL: integer literals >= 2^64 are rejected by the code (known finding, pinned by a test); the regex crate, Rust's f64 parsing and libm are modelled and checked by runs, not verified; a signed exponent without parentheses (2^-1) is treated as outside the documented grammar.",
          "DESIGN.md §5 C14", TECH),
+ "C19": ("Theorems for all call histories, arguments and any Rust-API behaviour: result_free_exact (result_free releases exactly the blocks the result owns), dealloc_wrong_layout_faults, result_free_twice_faults, conformant_free_never_faults, heap_balanced and heap_accounted (by invariant induction over histories: with every result freed once and every circuit freed once the heap returns to its initial multiset), gate_table_documented / cond_table_documented (the dispatch tables re-extracted from ffi.rs on every run equal the documented tables, by decide), sigs_agree / layouts_agree / result_codes_agree (Rust extern signatures and #[repr(C)] layouts vs the Python cdef prototypes), ffi_mirrors / ffi_error_iff (RESULT_ERROR iff the Rust call errs or no such call exists; same payload otherwise), ffi_param_live. Correspondence: the real extern \"C\" functions under a logging global allocator on generated histories (4k quick / 40k thorough), allocations per call compared with the model, answers compared with a twin Rust Circuit, aborts confirmed in isolated child processes.",
+         "PARTIAL: what the allocator does and that q1tsim proper neither leaks nor frees foreign blocks is observed, not modelled; panics across the C ABI abort the process (nine known-finding classes); abort predictors are conservative.",
+         "DESIGN.md §5 C19", TECH),
 }
 NOT_YET = "check under construction in this round (not yet claimed)"
 
